@@ -600,7 +600,7 @@ func BuildEnv(w *World, d *EnvData) *Env {
 	e.Info = d.P != d.Q
 	e.Index = d.K
 	e.U8 = uint8((d.A + 8) * 15)
-	e.U16 = uint16(d.B+8) * 4000
+	e.U16 = uint16(d.B+8) * 300
 	e.I8 = int8(d.C * 40)
 	e.I64 = int64(d.A) * 1000003
 	e.F64 = float64(d.N) + 0.5*float64(d.D%2)
